@@ -129,6 +129,10 @@ def run(ctx):
             recs.append(scenarios.run_spec(scenarios.make_spec(ctx.rng, a, valid=True, small=ctx.quick), max_steps=40))
     for _ in range(16 if ctx.quick else 150):
         recs.append(scenarios.run_spec(scenarios.auer_holdback(ctx.rng), max_steps=60))
+    import random
+    prng = random.Random(611 + ctx.seed)
+    for _ in range(4 if ctx.quick else 30):
+        recs.append(scenarios.run_spec(scenarios.correlated_longaxis(prng), max_steps=40))
     try:
         recs.append(run_probe(ctx))
     except Exception:
